@@ -1124,14 +1124,8 @@ def fam_diffuse(ctx, rng):
         close_figures()
 
 
-def split_peak_windows(rng):
-    """Some windows peak inside a narrow search range, the others only climb through it (their peak lies above it)."""
-    import hvsrpy
-    n_freq = int(rng.choice([24, 32, 48]))
-    f = np.geomspace(10 ** rng.uniform(-1.0, -0.5), 10 ** rng.uniform(1.2, 1.6), n_freq)
-    lf = np.log(f)
-    lo = float(np.exp(rng.uniform(lf[3], lf[n_freq // 2])))
-    hi = lo * float(rng.uniform(1.6, 2.4))
+def split_rows(rng, lf, lo, hi):
+    """Some windows peak inside (lo, hi), the others only climb through it (their peak lies above it)."""
     f0 = np.sqrt(lo * hi)
     k_in, k_out = int(rng.integers(2, 7)), int(rng.integers(1, 6))
     rows = []
@@ -1140,31 +1134,40 @@ def split_peak_windows(rng):
     for _ in range(k_out):
         f1 = hi * float(rng.uniform(2.0, 3.5))
         rows.append(1.0 + rng.uniform(8, 40) * np.exp(-0.5 * ((lf - np.log(f1)) / rng.uniform(0.5, 0.7)) ** 2))
-    order = rng.permutation(len(rows))
-    obj = hvsrpy.HvsrTraditional(f, np.array(rows)[order], meta={"processing_method": "traditional"})
-    obj.update_peaks_bounded(search_range_in_hz=(lo, hi))
-    return obj, [["range", [lo, hi]]]
+    return np.array(rows)[rng.permutation(len(rows))]
+
+
+def split_peak_windows(rng, n_azimuths=1):
+    import hvsrpy
+    n_freq = int(rng.choice([24, 32, 48]))
+    f = np.geomspace(10 ** rng.uniform(-1.0, -0.5), 10 ** rng.uniform(1.2, 1.6), n_freq)
+    lf = np.log(f)
+    lo = float(np.exp(rng.uniform(lf[3], lf[n_freq // 2])))
+    hi = lo * float(rng.uniform(1.6, 2.4))
+    hs = [hvsrpy.HvsrTraditional(f, split_rows(rng, lf, lo, hi), meta={"processing_method": "traditional"}) for _ in range(n_azimuths)]
+    return hs, (lo, hi)
 
 
 def fam_no_peak_windows(ctx, rng):
     """Windows without a peak in a narrow search range (rejected by the peak search itself), then every function."""
     try:
         import hvsrpy
-        obj, steps = split_peak_windows(rng)
-        kind = "traditional"
-        as_azimuthal = rng.random() < 0.3
-        if as_azimuthal:
-            others = [split_peak_windows(rng)[0] for _ in range(int(rng.integers(0, 3)))]
-            others = [hvsrpy.HvsrTraditional(obj.frequency, np.asarray(o.amplitude)[:, :obj.frequency.size]) for o in others
-                      if o.frequency.size >= obj.frequency.size]
-            az = hvsrpy.HvsrAzimuthal([obj] + others, np.sort(rng.choice(np.arange(0, 180, 15.0), 1 + len(others), replace=False)).tolist())
-            az.update_peaks_bounded(search_range_in_hz=tuple(obj._search_range_in_hz))
-            battery(ctx, rng, az, "azimuthal", steps, force=[str(rng.choice(["single", "2d", "3d", "summary"])), "table"])
+        if rng.random() < 0.3:
+            naz = int(rng.integers(1, 4))
+            hs, (lo, hi) = split_peak_windows(rng, naz)
+            az = hvsrpy.HvsrAzimuthal(hs, np.sort(rng.choice(np.arange(0, 180, 15.0), naz, replace=False)).tolist(),
+                                      meta={"processing_method": "azimuthal"})
+            az.update_peaks_bounded(search_range_in_hz=(lo, hi))
+            battery(ctx, rng, az, "azimuthal", [["range", [lo, hi]]], force=[str(rng.choice(["single", "2d", "3d", "summary"])), "table"])
             return
+        hs, (lo, hi) = split_peak_windows(rng)
+        obj = hs[0]
+        obj.update_peaks_bounded(search_range_in_hz=(lo, hi))
+        steps = [["range", [lo, hi]]]
         recs = make_recordings(rng, obj.n_curves)
         if rng.random() < 0.4:
             steps = steps + [histories.step_time_domain(rng, obj, obj.n_curves)]
-        battery(ctx, rng, obj, kind, steps, recs=recs, force=["prepost", str(rng.choice(["single", "3c"])), "table"])
+        battery(ctx, rng, obj, "traditional", steps, recs=recs, force=["prepost", str(rng.choice(["single", "3c"])), "table"])
     finally:
         close_figures()
 
